@@ -25,6 +25,15 @@ type c12Write struct {
 	Del bool   `json:"d"`
 }
 
+// absentIsNil: the ledger answers an absent key with nil; callers tell "no such key" by that (swap.Load, multiswap.Load).
+// An empty value that is not nil is therefore another answer, and is reported as one.
+func absentIsNil(v []byte) []byte {
+	if v != nil && len(v) == 0 {
+		return []byte("<empty, not nil>")
+	}
+	return v
+}
+
 func (m *memLedger) GetState(key string) ([]byte, error) {
 	m.reads++
 	if m.fail != "" && m.fail == key {
@@ -88,10 +97,10 @@ func c12Run(led map[string][]byte, hist []c12Op) c12Case {
 			} else {
 				v, _ = bs.GetState(o.Key)
 			}
-			outs = append(outs, c12Out{Kind: "val", Val: v})
+			outs = append(outs, c12Out{Kind: "val", Val: absentIsNil(v)})
 		case "bget":
 			v, _ := bs.GetState(o.Key)
-			outs = append(outs, c12Out{Kind: "val", Val: v})
+			outs = append(outs, c12Out{Kind: "val", Val: absentIsNil(v)})
 		case "failget":
 			// a read that fails if it reaches the ledger (it does not when a cache answers). Either way it is no step of the
 			// model's history: a failed read must leave nothing behind, a cached one is an ordinary read whose value is
